@@ -255,8 +255,9 @@ class ASTXpath:
         can be found in the LICENSE.txt file in the project root.
         """
         # Using dict, because set is not ordered
+        dummy_root = _DUMMY_XPATH_ROOT(root)
         work: dict[_NodeTraversalInfo | NodeTraversalInfo, None] = {
-            _NodeTraversalInfo(_DUMMY_XPATH_ROOT(root), None, None, None): None
+            _NodeTraversalInfo(dummy_root, None, None, None): None
         }
 
         for el in self._elements:
@@ -265,6 +266,9 @@ class ASTXpath:
             for n_info in work:
                 if el.anywhere:
                     for c_info in n_info.node.dfs():
+                        if c_info.parent is dummy_root:
+                            # The real root has no parent, field or index
+                            c_info = _NodeTraversalInfo(c_info.node, None, None, None)
                         if _match_node_element(c_info, el):
                             # Insert into our "ordered set" only if not already in there
                             # this is to prefer first insertion order
@@ -273,6 +277,9 @@ class ASTXpath:
                 else:
                     for c, f, i in n_info.node.get_child_nodes_with_field():
                         c_info = NodeTraversalInfo(c, n_info.node, f, i)
+                        if n_info.node is dummy_root:
+                            # The real root has no parent, field or index
+                            c_info = _NodeTraversalInfo(c, None, None, None)
                         if _match_node_element(c_info, el):
                             if c_info not in new_work:
                                 new_work[c_info] = None
